@@ -3,6 +3,7 @@ package interp
 import (
 	"bufio"
 	"bytes"
+	"encoding/csv"
 	"errors"
 	"os"
 )
@@ -94,8 +95,28 @@ func (d *verifDisk) collect(name string) {
 	}
 }
 
+// what print writes for one value in the given output mode (reference: the real encoding/csv writer)
+func verifEncodeRecord(mode IOMode, payload string) []byte {
+	if mode == DefaultMode {
+		return append([]byte(payload), '\n')
+	}
+	var b bytes.Buffer
+	w := csv.NewWriter(&b)
+	if mode == TSVMode {
+		w.Comma = '\t'
+	}
+	w.Write([]string{payload, "z"})
+	w.Flush()
+	return b.Bytes()
+}
+
 func VerifC13Order() {
-	nops := verifIntRange(1, verifBound(3, 4))
+	mode := []IOMode{DefaultMode, CSVMode, TSVMode}[verifIntRange(0, 2)]
+	maxOps := verifBound(3, 4)
+	if mode != DefaultMode {
+		maxOps = verifBound(2, 3) // the CSV encoder forks on every payload byte: shorter histories in these modes
+	}
+	nops := verifIntRange(1, maxOps)
 	pre := verifString(1) // both files hold this byte before the run
 	disk := &verifDisk{content: map[string][]byte{"A": []byte(pre), "B": []byte(pre)}}
 	// reference model
@@ -108,32 +129,38 @@ func VerifC13Order() {
 		name := []string{"A", "B"}[verifIntRange(0, 1)]
 		v := string([]byte{byte('p' + i)})
 		payload := verifString(1)
+		verifAssume(payload[0] != '\r')
 		vars[v] = str(payload)
+		args := v
+		rec := verifEncodeRecord(mode, payload)
+		if mode != DefaultMode {
+			args = v + ", \"z\""
+		}
 		switch verifIntRange(0, 4) {
 		case 0:
-			src += "print " + v + " > \"" + name + "\"; "
+			src += "print " + args + " > \"" + name + "\"; "
 			if !open[name] {
 				model[name] = nil
 				open[name] = true
 			}
-			model[name] = append(append(model[name], payload...), '\n')
+			model[name] = append(model[name], rec...)
 		case 1:
-			src += "print " + v + " >> \"" + name + "\"; "
+			src += "print " + args + " >> \"" + name + "\"; "
 			open[name] = true
-			model[name] = append(append(model[name], payload...), '\n')
+			model[name] = append(model[name], rec...)
 		case 2:
 			src += "close(\"" + name + "\"); "
 			open[name] = false
 		case 3:
 			src += "fflush(\"" + name + "\"); "
 		default:
-			src += "print " + v + "; "
-			stdout = append(append(stdout, payload...), '\n')
+			src += "print " + args + "; "
+			stdout = append(stdout, rec...)
 		}
 	}
 	src += []string{"", "exit 1; ", "zz = 1 / zero; "}[verifIntRange(0, 2)] + "}"
 	var out bytes.Buffer
-	cfg := &Config{Stdin: bytes.NewReader(nil), Output: &out, Error: &bytes.Buffer{}, Environ: []string{},
+	cfg := &Config{Stdin: bytes.NewReader(nil), Output: &out, Error: &bytes.Buffer{}, Environ: []string{}, OutputMode: mode,
 		OpenFile: func(name string, flag int, perm os.FileMode) (*os.File, error) {
 			disk.collect(name)
 			if flag&os.O_TRUNC != 0 {
@@ -196,4 +223,65 @@ func VerifC13Spawn() {
 	verifAssert(err == nil && st == 0, "program with a child command failed")
 	verifAssert(string(w.data) == payload+"\nz\n", "standard output lost or reordered data around a child command")
 	verifAssert(len(p.outputStreams) == 0 && len(p.inputStreams) == 0, "close() left the command stream registered")
+}
+
+// a reused interpreter delivers the second run's file output like a fresh one: a destination left open by
+// the first run is opened (and truncated) again
+func VerifC13Reuse() {
+	variant := verifIntRange(0, 2)
+	prog := verifParse([]string{
+		`BEGIN { print a > "A"; print b >> "B"; if (c) close("A") }`,
+		`BEGIN { print b >> "B"; print a > "A"; if (c) close("A") }`,
+		`BEGIN { print a > "A"; if (c) close("A"); b = b }`,
+	}[variant])
+	p := newInterp(prog)
+	disk := &verifDisk{content: map[string][]byte{}}
+	opens := 0
+	open := func(name string, flag int, perm os.FileMode) (*os.File, error) {
+		opens++
+		disk.collect(name)
+		if flag&os.O_TRUNC != 0 {
+			disk.content[name] = nil
+		}
+		f := verifNewFile(nil)
+		disk.handles = append(disk.handles, f)
+		disk.names = append(disk.names, name)
+		disk.collected = append(disk.collected, 0)
+		return f, nil
+	}
+	want := map[string][]byte{}
+	for run := 0; run < 2; run++ {
+		a, b := verifString(1), verifString(1)
+		closeA := verifIntRange(0, 1)
+		p.resetCore()
+		verifAssert(p.setExecuteConfig(&Config{Stdin: bytes.NewReader(nil), Output: &bytes.Buffer{}, Error: &bytes.Buffer{}, Environ: []string{}, OpenFile: open}) == nil, "config")
+		p.globals[p.scalarIndexes["a"]] = str(a)
+		p.globals[p.scalarIndexes["b"]] = str(b)
+		p.globals[p.scalarIndexes["c"]] = num(float64(closeA))
+		_, err := p.executeAll()
+		verifAssert(err == nil, "run failed")
+		want["A"] = append([]byte(a), '\n')
+		if variant != 2 {
+			want["B"] = append(append(want["B"], b...), '\n')
+		}
+	}
+	for _, f := range disk.handles {
+		verifAssert(verifFileClosed(f), "a file opened by the program is still open after the run ended")
+	}
+	disk.collect("")
+	verifAssert((opens == 4 || (variant == 2 && opens == 2)) && string(disk.content["A"]) == string(want["A"]) && string(disk.content["B"]) == string(want["B"]),
+		"on a reused interpreter the second run's file output is lost or goes to a stream left over from the first run")
+}
+
+// close() of an output command reports the command's status even when the final flush to it fails
+func VerifC13CloseStatusAfterFlushError() {
+	ws := uint32(verifIntRange(1, 3)) << 8 // the command exits with status 1..3
+	prog := verifParse(`BEGIN { print "data" | "cmd"; r = close("cmd") }`)
+	p := newInterp(prog)
+	verifAssert(p.setExecuteConfig(&Config{Stdin: bytes.NewReader(nil), Output: &bytes.Buffer{}, Error: &bytes.Buffer{}, Environ: []string{}, ShellCommand: []string{"/nonexistent/gosym-no-shell"}}) == nil, "config")
+	verifWaitStatus(ws)      // the modelled child exits with this status ...
+	verifPipeWriteFails(true) // ... without reading its input: writes to its stdin pipe fail
+	err := p.execute(prog.Compiled.Begin)
+	verifAssert(err == nil, "program failed")
+	verifAssert(verifGlobal(p, "r").n == float64(ws>>8), "close() of a command did not report the command's exit status (the command had exited without reading its input)")
 }
